@@ -129,9 +129,8 @@ Qed.
 Section LimitedLoad.
   Variable cfg : config.
   Variable S : list fentry.
-  Variable heads : list fentry.
-  Variable id : N.
-  Hypothesis WF : log_wf cfg S heads id.
+  Variable source : list fentry.       (* the entries whose hashes the fetcher is started with *)
+  Hypothesis CW : closure_wf cfg S source.
   Notation sget := (store_get (cf_store cfg)).
   Notation n := (cf_length cfg).
   Hypothesis Hlim : 0 <= n.
@@ -140,37 +139,37 @@ Section LimitedLoad.
 
   (* top n (closure) <= results <= closure, at every terminal state of every schedule *)
   Theorem fetch_window starts s :
-    (forall h, In h starts <-> In h (hashes heads)) ->
+    (forall h, In h starts <-> In h (hashes source)) ->
     reachable_state cfg starts s -> terminal s -> st_timedout s = false ->
     NoDup (hashes (st_results s)) /\ incl (st_results s) S /\
     (forall e, In e S -> newer_in (fe_time e) S < n -> In e (st_results s)).
   Proof.
     intros Hst Hr T Ht. pose proof (inv_reachable cfg starts s Hr) as I.
     assert (Hreq : forall h, requested cfg starts h -> In h (hashes S)).
-    { intros h Hh. apply (wf_requested_in_S cfg S heads id WF).
+    { intros h Hh. apply (cw_requested_in_S cfg S source CW).
       eapply requested_ext; [|exact Hh]. intros x Hx. now apply Hst. }
     assert (Hincl : incl (st_results s) S).
     { intros e He. destruct (inv_results cfg starts s I e He) as [Hd Hs].
-      apply (wf_entry_of_hash cfg S heads id WF (fe_hash e)); [|assumption].
+      apply (cw_entry_of_hash cfg S source CW (fe_hash e)); [|assumption].
       apply Hreq. apply (inv_cached cfg starts s I). apply cached_true. eauto. }
     split; [apply (inv_results_nodup cfg starts s I)|]. split; [assumption|].
     intros e He Hnew.
     assert (Hnr : next_reach cfg starts (fe_hash e)).
-    { eapply next_reach_ext; [|apply (wf_closure _ _ _ _ WF); now apply in_map].
+    { eapply next_reach_ext; [|apply (cw_closure _ _ _ CW); now apply in_map].
       intros x Hx. now apply Hst. }
     assert (Hmono : forall h e0 h' e0', next_reach cfg starts h -> sget h = Some e0 ->
                In h' (fe_next e0) -> wanted cfg h' -> sget h' = Some e0' -> fe_time e0' < fe_time e0).
     { intros h e0 h' e0' Hnr0 Hs0 Hin0 Hw0 Hs0'.
       assert (H0 : In h (hashes S)).
-      { apply (wf_closure _ _ _ _ WF). eapply next_reach_ext; [|exact Hnr0]. intros x Hx. now apply Hst. }
-      pose proof (wf_entry_of_hash cfg S heads id WF h e0 H0 Hs0) as He0.
+      { apply (cw_closure _ _ _ CW). eapply next_reach_ext; [|exact Hnr0]. intros x Hx. now apply Hst. }
+      pose proof (cw_entry_of_hash cfg S source CW h e0 H0 Hs0) as He0.
       assert (H0' : In h' (hashes S)).
-      { apply (wf_closure _ _ _ _ WF).
-        eapply nr_link; [apply (wf_closure _ _ _ _ WF); exact H0|exact Hs0|exact Hin0|exact Hw0]. }
-      pose proof (wf_entry_of_hash cfg S heads id WF h' e0' H0' Hs0') as He0'.
+      { apply (cw_closure _ _ _ CW).
+        eapply nr_link; [apply (cw_closure _ _ _ CW); exact H0|exact Hs0|exact Hin0|exact Hw0]. }
+      pose proof (cw_entry_of_hash cfg S source CW h' e0' H0' Hs0') as He0'.
       apply (Hclock e0 e0' He0 He0'). rewrite (store_get_hash _ _ _ Hs0'). exact Hin0. }
     destruct (limited_terminal cfg starts Hlim Hmono s Hr T Ht (fe_hash e) e Hnr
-                (wf_stored _ _ _ _ WF e He)) as [Hin|Hb]; [assumption|].
+                (cw_stored _ _ _ CW e He)) as [Hin|Hb]; [assumption|].
     exfalso.
     assert (Hle : newer_in (fe_time e) (st_results s) <= newer_in (fe_time e) S).
     { apply zlen_filter_incl; [|assumption]. apply NoDup_hashes_NoDup.
@@ -215,42 +214,21 @@ Section WindowLoaders.
   Lemma new_log_entries id0 l hs : NoDup (hashes l) -> lg_entries (new_log id0 l hs) = l.
   Proof. intros H. unfold new_log. cbn [lg_entries]. now apply ordered_map_id. Qed.
 
-  (* NewFromMultihash with n >= 1 *)
-  Lemma limited_multihash id0 mheads n R : 1 <= n -> window n R ->
+  (* NewFromMultihash, every n >= 0 *)
+  Lemma limited_multihash id0 mheads n R : 0 <= n -> window n R ->
     lg_entries (load_multihash id0 mheads n R) = last_n n (sort_go cmp_lww false S).
   Proof.
     intros Hn HW. unfold load_multihash.
-    assert (E : -1 <? n = true) by (apply Z.ltb_lt; lia). rewrite E.
-    rewrite entry_slice_neg by assumption. rewrite (window_lww n R) by (try lia; assumption).
-    apply new_log_entries. apply last_n_nodup_hashes, sorted_nodup_hashes.
-  Qed.
-
-  (* NewFromEntryHash with n >= 1 *)
-  Lemma limited_entryhash id0 n R : 1 <= n -> window n R ->
-    lg_entries (load_entryhash id0 n R) = last_n n (sort_go cmp_lww false S).
-  Proof.
-    intros Hn HW. unfold load_entryhash.
-    assert (E : -1 <? n = true) by (apply Z.ltb_lt; lia). rewrite E.
-    assert (E2 : -1 <? Z.max n 1 = true) by (apply Z.ltb_lt; lia). rewrite E2.
-    rewrite Z.max_l by lia.
-    rewrite entry_slice_neg by assumption. rewrite (window_lww n R) by (try lia; assumption).
-    apply new_log_entries. apply last_n_nodup_hashes, sorted_nodup_hashes.
-  Qed.
-
-  (* repaired manifest and JSON loaders, every n >= 0 *)
-  Lemma limited_multihash_fixed id0 mheads n R : 0 <= n -> window n R ->
-    lg_entries (load_multihash_fixed id0 mheads n R) = last_n n (sort_go cmp_lww false S).
-  Proof.
-    intros Hn HW. unfold load_multihash_fixed.
     assert (E : -1 <? n = true) by (apply Z.ltb_lt; lia). rewrite E.
     rewrite (window_lww n R) by assumption.
     apply new_log_entries. apply last_n_nodup_hashes, sorted_nodup_hashes.
   Qed.
 
-  Lemma limited_json_fixed id0 n R : 0 <= n -> window n R ->
-    lg_entries (load_json_fixed id0 n R) = last_n n (sort_go cmp_clock false S).
+  (* NewFromJSON, every n >= 0 *)
+  Lemma limited_json id0 n R : 0 <= n -> window n R ->
+    lg_entries (load_json id0 n R) = last_n n (sort_go cmp_clock false S).
   Proof.
-    intros Hn HW. unfold load_json_fixed.
+    intros Hn HW. unfold load_json.
     assert (E : -1 <? n = true) by (apply Z.ltb_lt; lia). rewrite E.
     rewrite (window_clock n R) by assumption.
     apply new_log_entries. apply last_n_nodup_hashes, sorted_nodup_hashes.
@@ -275,7 +253,7 @@ Proof.
   - etransitivity; eauto.
 Qed.
 
-Section FixedEntry.
+Section EntryLoader.
   Variable S : list fentry.
   Hypothesis HndS : NoDup (hashes S).
   Hypothesis Htimes : times_ok S.
@@ -337,37 +315,20 @@ Section FixedEntry.
   Lemma tie_free_filter p : tie_free (filter p S).
   Proof. intros a b Ha Hb. apply filter_In in Ha, Hb. apply Hties; tauto. Qed.
 
-  Theorem fixed_entry_values n R :
-    0 <= n -> window S (Z.max n (zlen source)) R ->
-    let L := Z.max n (zlen source) in
-    from_entry_values_fixed n source R =
-      source ++ last_n (L - zlen source) (sort_go cmp_clock false (filter notsrc S)).
+  (* the most recent others: the window of the fetch result is as good as the whole log *)
+  Lemma others_window L R : zlen source <= L -> window S L R ->
+    last_n (L - zlen source) (sort_go cmp_clock false (filter notsrc R)) =
+    last_n (L - zlen source) (sort_go cmp_clock false (filter notsrc S)).
   Proof.
-    intros Hn HW L. unfold from_entry_values_fixed, entry_fetch_len.
-    assert (E : -1 <? n = true) by (apply Z.ltb_lt; lia). rewrite E.
-    assert (E2 : -1 <? Z.max n (zlen source) = true) by (apply Z.ltb_lt; lia). rewrite E2.
-    rewrite (ordered_map_id source Hsrc_nd).
-    destruct HW as [H1 HW']. rewrite (ordered_map_id R H1). f_equal.
-    pose proof (window_notsrc L R (conj H1 HW')) as HW2.
+    intros HL HW. pose proof (window_notsrc L R HW) as HW2.
     apply (window_clock (filter notsrc S)).
     - now apply filter_hashes_nodup.
     - apply times_ok_filter.
     - apply tie_free_filter.
-    - subst L. lia.
+    - lia.
     - exact HW2.
   Qed.
-
-  Theorem fixed_entry_count n R :
-    0 <= n -> window S (Z.max n (zlen source)) R ->
-    zlen (from_entry_values_fixed n source R) = Z.min (Z.max n (zlen source)) (zlen S).
-  Proof.
-    intros Hn HW. rewrite (fixed_entry_values n R Hn HW). cbv zeta.
-    rewrite zlen_app, last_n_length by lia.
-    assert (Hlen : zlen (sort_go cmp_clock false (filter notsrc S)) = zlen (filter notsrc S)).
-    { unfold zlen, sort_go. now rewrite gosort_length. }
-    rewrite Hlen. pose proof filter_src_length. pose proof (zlen_nonneg source). lia.
-  Qed.
-End FixedEntry.
+End EntryLoader.
 
 (* ---------------------------------------------------------------------------------------- *)
 (* helpers for concrete witnesses                                                            *)
@@ -448,7 +409,7 @@ Section SingleHead.
   Proof.
     intros Hr T Ht.
     assert (Hst : forall x, In x [fe_hash h] <-> In x (hashes [h])) by (intros x; reflexivity).
-    destruct (fetch_window cfg S [h] id WF Hlim Hclock [fe_hash h] s Hst Hr T Ht) as [W1 [W2 W3]].
+    destruct (fetch_window cfg S [h] (log_wf_closure cfg S [h] id WF) Hlim Hclock [fe_hash h] s Hst Hr T Ht) as [W1 [W2 W3]].
     split; [assumption|]. split; [assumption|].
     intros e He Hnew. destruct (Z.le_gt_cases 1 n) as [Hn|Hn].
     - apply W3; [assumption|]. lia.
@@ -469,13 +430,78 @@ Section SingleHead.
   Qed.
 End SingleHead.
 
-Lemma limited_entryhash_all S id0 n R :
+Lemma limited_entryhash S id0 n R :
   NoDup (hashes S) -> times_ok S -> tie_free S -> 0 <= n -> window S (Z.max n 1) R ->
   lg_entries (load_entryhash id0 n R) = last_n (Z.max n 1) (sort_go cmp_lww false S).
 Proof.
   intros HndS Htimes Hties Hn HW. unfold load_entryhash.
   assert (E : -1 <? n = true) by (apply Z.ltb_lt; lia). rewrite E.
   assert (E2 : -1 <? Z.max n 1 = true) by (apply Z.ltb_lt; lia). rewrite E2.
-  rewrite entry_slice_neg by lia. rewrite (window_lww S HndS Htimes Hties (Z.max n 1) R) by (try lia; assumption).
+  rewrite (window_lww S HndS Htimes Hties (Z.max n 1) R) by (try lia; assumption).
   apply new_log_entries. apply last_n_nodup_hashes, sorted_nodup_hashes. assumption.
 Qed.
+
+(* ---------------------------------------------------------------------------------------- *)
+(* NewFromEntry for ANY list of supplied entries of the closure (duplicates allowed), any n >= 0 *)
+
+Lemma ordered_map_length_le l : zlen (ordered_map l) <= zlen l.
+Proof.
+  unfold ordered_map. generalize (@nil N) as seen.
+  induction l as [|x l IH]; intros seen; cbn [uniq_from]; [lia|].
+  specialize (IH seen) as IH1. specialize (IH (fe_hash x :: seen)) as IH2.
+  unfold zlen in *. destruct (mem (fe_hash x) seen); cbn [length]; lia.
+Qed.
+
+Section EntryLoaderAny.
+  Variable S : list fentry.
+  Hypothesis HndS : NoDup (hashes S).
+  Hypothesis Htimes : times_ok S.
+  Hypothesis Hties : tie_free S.
+  Variable source : list fentry.            (* what the caller passes, as it is *)
+  Hypothesis Hsrc_in : incl source S.
+
+  Notation src := (ordered_map source).
+  Notation notsrc := (fun e => negb (has_hash (fe_hash e) src)).
+  Notation L n := (Z.max n (zlen source)).
+
+  Lemma src_in : incl src S.
+  Proof. intros e He. apply Hsrc_in. now apply ordered_map_In. Qed.
+
+  Lemma source_in_src e : In e source -> In e src.
+  Proof.
+    intros He. pose proof (ordered_map_complete source e He) as Hc. apply in_map_iff in Hc.
+    destruct Hc as [e' [Heq He']]. assert (e' = e); [|now subst].
+    apply (hash_inj_in S); auto. now apply src_in.
+  Qed.
+
+  Theorem entry_values n R : 0 <= n -> window S (L n) R ->
+    from_entry_values n source R =
+      src ++ last_n (L n - zlen src) (sort_go cmp_clock false (filter notsrc S)).
+  Proof.
+    intros Hn HW. unfold from_entry_values, entry_fetch_len.
+    assert (E : -1 <? n = true) by (apply Z.ltb_lt; lia). rewrite E.
+    assert (E2 : -1 <? Z.max n (zlen source) = true) by (apply Z.ltb_lt; lia). rewrite E2.
+    destruct HW as [H1 HW']. rewrite (ordered_map_id R H1). f_equal.
+    apply (others_window S HndS Htimes Hties src src_in (ordered_map_nodup source) (L n) R).
+    - pose proof (ordered_map_length_le source). lia.
+    - exact (conj H1 HW').
+  Qed.
+
+  Theorem entry_values_count n R : 0 <= n -> window S (L n) R ->
+    zlen (from_entry_values n source R) = Z.min (L n) (zlen S).
+  Proof.
+    intros Hn HW. rewrite (entry_values n R Hn HW).
+    rewrite zlen_app. pose proof (ordered_map_length_le source) as Hle.
+    rewrite last_n_length by lia.
+    assert (Hlen : zlen (sort_go cmp_clock false (filter notsrc S)) = zlen (filter notsrc S)).
+    { unfold zlen, sort_go. now rewrite gosort_length. }
+    rewrite Hlen. pose proof (filter_src_length S HndS src src_in (ordered_map_nodup source)).
+    pose proof (zlen_nonneg src). lia.
+  Qed.
+
+  Theorem entry_values_supplied n R e : 0 <= n -> window S (L n) R ->
+    In e source -> In e (from_entry_values n source R).
+  Proof.
+    intros Hn HW He. rewrite (entry_values n R Hn HW). apply in_or_app. left. now apply source_in_src.
+  Qed.
+End EntryLoaderAny.
